@@ -5,9 +5,9 @@
 (* graph, must be a behaviour of WSock (Dev = {}).  Every WSock action      *)
 (* includes the server's reaction, so there are no silent steps:            *)
 (*   accept | sendmsg | aclose code | recv what arg | frag kind part fin |  *)
-(*   cclose code | lost                                                     *)
+(*   cclose code | lost | early (a frame written before the 101)            *)
 (* are the WSock actions, and the observations                               *)
-(*   w101 | wclose code | crash | q                                         *)
+(*   w101 | w400 | wclose code | crash | q                                  *)
 (* are compared with the design state (`q`: everything the design says is   *)
 (* on the wire has been seen, and nothing else).  Advisory, like TraceH1.   *)
 (***************************************************************************)
@@ -19,11 +19,12 @@ Traces == JsonDeserialize(IOEnv.TRACE_FILE)
 tvars == <<vars, tid, l, ob>>
 Evs(t) == Traces[t].evs
 
-ObInit == [w101 |-> FALSE, close |-> 0, crash |-> FALSE]
+ObInit == [w101 |-> FALSE, w400 |-> FALSE, close |-> 0, crash |-> FALSE]
 
 TraceInit == Init /\ ~acceptFails /\ tid \in 1..Len(Traces) /\ l = 1 /\ ob = ObInit
 
 Agree == /\ ob.w101 = resp101
+         /\ ob.w400 = refused
          /\ ob.close = sentClose
          /\ ob.crash = crashed
 
@@ -44,15 +45,17 @@ Stimulus(e) ==
                                \* total the design allows that is consistent with what follows is accepted
          [] e.k = "cclose"  -> ClientClose(e.code)
          [] e.k = "lost"    -> ConnLost
+         [] e.k = "early"   -> EarlyData
 
 Observation(e) ==
     /\ UNCHANGED vars
     /\ CASE e.k = "w101"   -> ob' = [ob EXCEPT !.w101 = TRUE] /\ resp101
+         [] e.k = "w400"   -> ob' = [ob EXCEPT !.w400 = TRUE] /\ refused
          [] e.k = "wclose" -> ob' = [ob EXCEPT !.close = e.code] /\ ob.close = 0 /\ sentClose = e.code
          [] e.k = "crash"  -> ob' = [ob EXCEPT !.crash = TRUE] /\ crashed
          [] e.k = "q"      -> UNCHANGED ob /\ Agree
 
-IsStimulus(e) == e.k \in {"accept", "sendmsg", "aclose", "recv", "frag", "cclose", "lost"}
+IsStimulus(e) == e.k \in {"accept", "sendmsg", "aclose", "recv", "frag", "cclose", "lost", "early"}
 
 TraceNext ==
     /\ l <= Len(Evs(tid))
@@ -68,5 +71,5 @@ DiagL == CHOOSE n \in 0..2000 : ToString(n) = IOEnv.DIAG_L
 Diag == (l = DiagL) => PrintT(<<"STATE", [asgi |-> asgi, accepted |-> accepted, ws |-> ws, buf |-> buf, cmsg |-> cmsg,
                                           nsent |-> nsent, q |-> q, delivered |-> delivered, sclosed |-> sclosed,
                                           clientCode |-> clientCode, sentClose |-> sentClose, appClosed |-> appClosed,
-                                          resp101 |-> resp101, lost |-> lost, crashed |-> crashed, ob |-> ob]>>)
+                                          resp101 |-> resp101, refused |-> refused, lost |-> lost, crashed |-> crashed, ob |-> ob]>>)
 =============================================================================
